@@ -3,6 +3,7 @@ import Bw.Merge
 import Bw.Flags
 import Bw.TreeWalk
 import Bw.ListReport
+import Bw.MainFlow
 import Bw.Glob
 import Bw.Walk
 import Bw.Lemmas.WalkSim
@@ -148,6 +149,16 @@ def handlePipeline (j : Json) : Json :=
           (k.toList, match v with | .arr a => a.toList.map lcOf | _ => [])))
       | _ => .ok []
   if !(files.all treeConsistent) then Json.mkObj [("harness_tree_inconsistent", true)] else
+  -- the exit status `main` ends with, for a validation run and for `list`, by the model of its sequencing (`Bw.MainFlow`)
+  let mainJ : Json :=
+    let rawE := extra.map (fun (k, v) => k ++ '=' :: v)
+    let en := (strList j "enabled").map String.toList
+    let dis := (strList j "disabled").map String.toList
+    let inp : MainFlow.Input := { world := w, changes := (match diffR with | .ok cs => some cs | .error _ => none), scan := boolK j "scan" true }
+    let (re, _) := regexOf j
+    Json.mkObj [("validate", MainFlow.exitStatus (MainFlow.run cfg re (asyncOf j) rawE en dis false inp)),
+                ("list", MainFlow.exitStatus (MainFlow.run cfg re (asyncOf j) rawE en dis true inp))]
+  (fun (o : Json) => o.setObjVal! "main" mainJ) <|
   match diffR with
   | .error e => Json.mkObj [("ctx", Json.mkObj [("err", Json.arr #[Json.mkObj [("kind", e)]])]), ("exit", 1)]
   | .ok changes =>
